@@ -340,6 +340,10 @@ def gen(rng, tier):
         sq.append("c11 " + " ".join(rand_val(rng) for _ in range(k)))
     sq.append("c11")
     streams.append(("typed-sequences", sq))
+    # the same kind of sequences on a stream with a life before the case: it carried a 70000-byte message, part of
+    # it was read, then it was Reset() for reuse (tag c11R; the model's stream after Reset is the empty stream)
+    ru = ["c11R " + c[4:] for c in sq[:: max(1, len(sq) // (60 if quick else 600))] if len(c) > 4]
+    streams.append(("stream-reused-after-reset", ru))
     # sample of the int32 line through the model: every 4099-th value (thorough: all of them, quick: a slice)
     step = 4099
     sv = list(range(-(1 << 31), 1 << 31, step))
@@ -600,7 +604,7 @@ def run(chk):
     chk.run_proof_gate(octets.PROOFS + ["proofs/OctetsInterleaved.v"])
     binary = pure.build_pure(chk)
     if binary:
-        streams = [("corpus", [c for c in pure.corpus_cases(ID) if c.startswith("c11 ") or c == "c11" or is_inter(c)])] + gen(chk.rng, chk.tier) + gen_inter(chk.rng, chk.tier)
+        streams = [("corpus", [c for c in pure.corpus_cases(ID) if c.startswith(("c11 ", "c11R ")) or c == "c11" or is_inter(c)])] + gen(chk.rng, chk.tier) + gen_inter(chk.rng, chk.tier)
         cases, model, impl = octets.run_streams(chk, binary, streams, compare, monitor, nontrivial)
         run_sweeps(chk, binary)
         # measured distribution: values per type, encoded size of the 7-bit values and of the length prefixes
